@@ -344,8 +344,16 @@ Definition browser_scheme (v : str) : option str :=
   | [] => None
   end.
 
+(** SPEC, fixed here and not taken from the policy: the schemes a URL attribute may show a browser.
+    None of them runs script or renders attacker-supplied markup (no javascript, vbscript, data,
+    blob, file, about ...). A policy that allows a scheme outside this list fails policy_tables_ok. *)
+Definition safe_schemes : list str :=
+  [[104;116;116;112]; [104;116;116;112;115]; [109;97;105;108;116;111]; [102;116;112]; [102;116;112;115];
+   [116;101;108]; [115;109;115]; [99;105;100]; [120;109;112;112]; [105;114;99]; [105;114;99;115];
+   [110;101;119;115]; [110;110;116;112]; [103;101;111]; [115;105;112]; [115;105;112;115]; [119;101;98;99;97;108]].
+
 Definition scheme_allowed (v : str) : bool :=
-  match browser_scheme v with None => true | Some s => mem_str s bm_url_schemes end.
+  match browser_scheme v with None => true | Some s => mem_str s safe_schemes end.
 
 (** what is assumed of net/url (checked by the oracle on every supplied result): the string form
     of a successfully parsed URL shows a browser the scheme url.Parse reported *)
